@@ -3,6 +3,7 @@ package hx
 
 import (
 	"bufio"
+	"crypto/sha1"
 	"encoding/hex"
 	"fmt"
 	"os"
@@ -98,4 +99,14 @@ func Guard(f func() []string) (out []string) {
 		}
 	}()
 	return f()
+}
+
+// Blob encodes a body: hex when short, otherwise an opaque atom `h<len>_<sha1>` (the model only
+// ever compares bodies for equality at system level).
+func Blob(b []byte) string {
+	if len(b) <= 256 {
+		return X(string(b))
+	}
+	sum := sha1.Sum(b)
+	return "h" + strconv.Itoa(len(b)) + "_" + hex.EncodeToString(sum[:8])
 }
